@@ -878,7 +878,7 @@ func ruleNegIdx(c *Ctx) {
 					}
 					// the index parser: strconv.Atoi, or any function (int, error) applied to the key
 					res := f.Signature.Results()
-					isParser := stdName(f) == "strconv.Atoi"
+					isParser := b.isIndexParser(f)
 					if !isParser && res.Len() == 2 && isErrorType(res.At(1).Type()) && len(fn.Params) > 1 {
 						if bt, ok := res.At(0).Type().Underlying().(*types.Basic); ok && bt.Kind() == types.Int {
 							for _, a := range call.Call.Args {
@@ -1071,7 +1071,7 @@ func (b *Body) appendTokenObligation(l *Ledger) {
 		for _, ins := range bb.Instrs {
 			switch x := ins.(type) {
 			case *ssa.Call:
-				if f := x.Call.StaticCallee(); f != nil && stdName(f) == "strconv.Atoi" {
+				if f := x.Call.StaticCallee(); f != nil && b.isIndexParser(f) {
 					bad = "the token is parsed as a number at " + b.posOf(ins) + ": \"-\" is then subject to the index rules"
 				}
 				if bi, ok := x.Call.Value.(*ssa.Builtin); ok && bi.Name() == "append" {
@@ -1136,7 +1136,7 @@ func (b *Body) addRangeObligation(l *Ledger) {
 			return
 		}
 		res := f.Signature.Results()
-		isParser := stdName(f) == "strconv.Atoi"
+		isParser := b.isIndexParser(f)
 		if !isParser && res.Len() == 2 && isErrorType(res.At(1).Type()) {
 			if bt, ok := res.At(0).Type().Underlying().(*types.Basic); ok && bt.Kind() == types.Int {
 				for _, a := range call.Call.Args {
